@@ -91,7 +91,7 @@ def run(ctx):
             rp.update(observed=d, expected="unspecified keys keep their schema and optionality")
             ctx.violation("substitution changed an unspecified dict key: " + d, rp)
         if len(samples) < 4 and isinstance(v, dict) and v:
-            samples.append({"schema": c.ssrc, "value": c.vsrc(), "result": repr(c.result).replace("\n", " ")[:160]})
+            samples.append({"schema": c.ssrc, "value": c.vsrc(), "result": common.srepr(c.result).replace("\n", " ")[:160]})
     for c in ssuite.bad_results(cases)[:5]:
         rp = c.replay_dict()
         rp.update(observed="substitute returned a schema with ill-typed props: " + c.unmodelled[:300],
@@ -103,7 +103,7 @@ def run(ctx):
     for i in bad[:10]:
         c = modelled[i]
         rp = c.replay_dict()
-        rp.update(observed=c.outcome + (": " + repr(c.result).replace("\n", " ")[:300] if c.result is not None else ""),
+        rp.update(observed=c.outcome + (": " + common.srepr(c.result).replace("\n", " ")[:300] if c.result is not None else ""),
                   expected="the model's substitute result (theorems subst_pins / subst_accepts_value are about it)",
                   theorem_or_suite="C04 correspondence: substitute")
         ctx.violation("substitute result differs from the model's", rp, failing_input=False)
